@@ -1203,3 +1203,170 @@ def m_take_mem(e, st, a, ctx):
     new = S(0, []) if isinstance(old, S) else V(0, []) if isinstance(old, V) else M([]) if isinstance(old, M) else None
     if new is None: raise Abort('mem::take of %r' % (old,))
     e.store(st, a[0], new); return old
+
+
+# ------------------------------------------------------------------ additional String / Vec API (used by plausible edits)
+def pat_str(e, st, x):
+    """a pattern argument: char or string"""
+    if is_int(x): return S(1, [x])
+    return as_str(e, st, x)
+
+
+MODELS[:] = [(p, f) for (p, f) in MODELS if f.__name__ not in ('m_ends_with', 'm_starts_with')]
+
+
+@model(r'core::str::<impl str>::starts_with::<.*>', r'std::string::String::starts_with::<.*>')
+def m_starts_with2(e, st, a, ctx):
+    return simp(match_at(as_str(e, st, a[0]), pat_str(e, st, a[1]), 0))
+
+
+@model(r'core::str::<impl str>::ends_with::<.*>')
+def m_ends_with2(e, st, a, ctx):
+    sv = as_str(e, st, a[0]); p = pat_str(e, st, a[1])
+    if not is_sym(sv.len) and not is_sym(p.len):
+        if p.len > sv.len: return False
+        return simp(zand(*[zeq(sv.ch[sv.len - p.len + i], p.ch[i]) for i in range(p.len)]))
+    cs = [p.len <= sv.len]
+    for i in range(len(p.ch)):
+        cs.append(zimp(i < p.len, zeq(sel(sv.ch, sv.len - p.len + i, -1), p.ch[i])))
+    return simp(zand(*cs))
+
+
+@model(r'std::string::String::pop')
+def m_string_pop(e, st, a, ctx):
+    sv = as_str(e, st, a[0]); c = simp(sv.len > 0)
+    item = sel(sv.ch, sv.len - 1, 0)
+    e.store(st, a[0], S(zite(c, sv.len - 1, sv.len), sv.ch))
+    return opt(c, item)
+
+
+@model(r'std::string::String::truncate')
+def m_string_truncate(e, st, a, ctx):
+    sv = as_str(e, st, a[0]); n = a[1]
+    ci = char_index_of_byte(e, st, sv, zite(simp(n <= byte_len(sv)), n, byte_len(sv)), 'truncate')
+    e.store(st, a[0], S(ci, sv.ch)); return UNIT
+
+
+@model(r'std::string::String::with_capacity', r'std::string::String::from_utf8_lossy_placeholder')
+def m_string_with_capacity(e, st, a, ctx): return S(0, [])
+
+
+@model(r'std::vec::Vec::<.*>::with_capacity')
+def m_vec_with_capacity(e, st, a, ctx): return V(0, [])
+
+
+@model(r'std::string::String::reserve', r'std::vec::Vec::<.*>::reserve', r'std::string::String::shrink_to_fit', r'std::vec::Vec::<.*>::shrink_to_fit')
+def m_reserve(e, st, a, ctx): return UNIT
+
+
+@model(r'std::vec::Vec::<.*>::truncate')
+def m_vec_truncate(e, st, a, ctx):
+    v = as_vec(e, st, a[0]); n = a[1]
+    e.store(st, a[0], V(zite(simp(n < v.len), n, v.len), v.it)); return UNIT
+
+
+@model(r'core::slice::<impl \[.*\]>::first', r'core::slice::<impl \[.*\]>::last', r'core::slice::<impl \[.*\]>::get::<usize>')
+def m_slice_get(e, st, a, ctx):
+    v = as_vec(e, st, a[0])
+    if ctx[0].endswith('first'): i = 0
+    elif ctx[0].endswith('last'): i = v.len - 1
+    else: i = a[1]
+    c = simp(zand(i >= 0, i < v.len))
+    return opt(c, PV(sel(v.it, i, POISON)))
+
+
+@model(r'std::vec::Vec::<.*>::extend_from_slice', r'<std::vec::Vec<.*> as std::iter::Extend<.*>>::extend::<std::vec::Vec<.*>>')
+def m_vec_extend(e, st, a, ctx):
+    e.store(st, a[0], vec_concat(as_vec(e, st, a[0]), as_vec(e, st, a[1]))); return UNIT
+
+
+@model(r'std::char::methods::<impl char>::is_whitespace')
+def m_char_is_ws(e, st, a, ctx): return simp(is_ws(val(e, st, a[0])))
+
+
+@model(r'std::char::methods::<impl char>::is_ascii_digit', r'std::char::methods::<impl char>::is_numeric_placeholder')
+def m_char_is_digit(e, st, a, ctx):
+    c = val(e, st, a[0]); return simp(zand(c >= 48, c <= 57))
+
+
+@model(r'std::char::methods::<impl char>::is_ascii_whitespace')
+def m_char_is_ascii_ws(e, st, a, ctx):
+    c = val(e, st, a[0]); return simp(zor(zeq(c, 32), zeq(c, 9), zeq(c, 10), zeq(c, 12), zeq(c, 13)))
+
+
+@model(r'<char as std::cmp::PartialEq>::(eq|ne)', r'<usize as std::cmp::PartialEq>::(eq|ne)', r'<bool as std::cmp::PartialEq>::(eq|ne)')
+def m_scalar_eq(e, st, a, ctx):
+    r = zeq(val(e, st, a[0]), val(e, st, a[1]))
+    return znot(r) if ctx[0].endswith('ne') else r
+
+
+@model(r'std::option::Option::<.*>::cloned', r'std::option::Option::<.*>::copied')
+def m_opt_cloned(e, st, a, ctx):
+    o = as_enum(e, st, a[0])
+    if 1 not in o.p: return none()
+    return E(OPTION, o.d, {0: [], 1: [val(e, st, o.p[1][0])]})
+
+
+@model(r'std::option::Option::<.*>::is_some_and::<.*>', r'std::option::Option::<.*>::map_or::<.*>')
+def m_opt_unsupported(e, st, a, ctx): raise Abort('unmodelled Option combinator: ' + ctx[0])
+
+
+@model(r'std::collections::HashMap::<.*>::entry')
+def m_map_entry(e, st, a, ctx): return T([a[0], a[1]], 'map::Entry')
+
+
+@model(r'std::collections::hash_map::Entry::<.*>::or_insert')
+def m_entry_or_insert(e, st, a, ctx):
+    ent = a[0]; mp_, key = ent.f
+    mv = as_map(e, st, mp_)
+    found, old, hits = map_lookup(e, st, mv, key)
+    ents = list(mv.ents)
+    keyv = as_str(e, st, key) if not _is_scalar(key) else key
+    if found is not True: ents.append((simp(znot(found)), keyv, a[1]))
+    e.store(st, mp_, M(ents))
+    if not isinstance(mp_, P): raise Abort('entry through non-place pointer')
+    alts = [(c, P(mp_.fid, mp_.loc, mp_.proj + (('m', i),))) for i, c in enumerate(hits) if c is not False]
+    if found is not True: alts.append((simp(znot(found)), P(mp_.fid, mp_.loc, mp_.proj + (('m', len(ents) - 1),))))
+    return alts[0][1] if len(alts) == 1 else U(alts)
+
+
+@model(r'core::str::<impl str>::split::<.*>')
+def m_str_split(e, st, a, ctx):
+    sv = as_str(e, st, a[0]); p = pat_str(e, st, a[1])
+    pc = str_concrete(p)
+    if pc is None or len(pc) != 1: raise Abort('split with symbolic / multi-char pattern')
+    return T([V(*split_on_char(sv, ord(pc))), 0], 'iter::Split')
+
+
+def split_on_char(sv, code):
+    """pieces of sv separated by the char `code` (str::split semantics: k separators give k+1 pieces)"""
+    n = len(sv.ch)
+    sc = str_concrete(sv)
+    if sc is not None:
+        parts = sc.split(chr(code)); return len(parts), [mk_str(x) for x in parts]
+    sep = [zand(i < sv.len, zeq(sv.ch[i], code)) for i in range(n)]
+    pi = [0]
+    for i in range(n): pi.append(pi[-1] + zite(sep[i], 1, 0))      # pi[i] = piece index of position i
+    count = (sel(pi, sv.len, 0) if is_sym(sv.len) else pi[sv.len]) + 1
+    pieces = []
+    for k in range(n + 1):
+        start = sv.len
+        for i in range(n - 1, -1, -1): start = zite(zand(i < sv.len, zeq(pi[i], k), znot(sep[i])) if False else zand(i <= sv.len, zeq(pi[i], k)), i, start)
+        end = sv.len
+        for i in range(n - 1, -1, -1): end = zite(zand(sep[i], zeq(pi[i], k)), i, end)
+        pieces.append(str_sub(sv, simp(start), simp(end)))
+    return simp(count), pieces
+
+
+@model(r'<std::str::Split<\'_, .*> as std::iter::Iterator>::collect::<std::vec::Vec<(&str|std::string::String)>>')
+def m_split_collect(e, st, a, ctx):
+    it = a[0]; v, idx = it.f
+    return v
+
+
+@model(r'<std::str::Split<\'_, .*> as std::iter::Iterator>::next')
+def m_split_next(e, st, a, ctx):
+    it = e.deref(st, a[0]); v, idx = it.f
+    c = simp(idx < v.len)
+    e.store(st, a[0], T([v, zite(c, idx + 1, idx)], 'iter::Split'))
+    return opt(c, sel(v.it, idx, S(0, [])))
